@@ -288,6 +288,7 @@ def run_case(case):
     model = Model(case)
     objs = []
     inst_names = []
+    cls_of_inst = []
     info = {"reports": 0, "mid_report": False, "excl_hits": False}
     tmpd = None
     try:
@@ -299,8 +300,12 @@ def run_case(case):
                     cls_i = op[2] if len(op) > 2 else 0
                     o = ns["CGB" if cls_i else "CG"](v[0], v[1])
                     if case["named"]:
-                        o.set_name("inst%d" % len(objs))
-                        inst_names.append("inst%d" % len(objs))
+                        # numbered per covergroup CLASS: instances of the two classes share names (inst0, inst1, ...);
+                        # a name is unique among the instances of its own type only
+                        k_ = len([1 for j_ in range(len(objs)) if cls_of_inst[j_] == cls_i])
+                        o.set_name("inst%d" % k_)
+                        inst_names.append("inst%d" % k_)
+                    cls_of_inst.append(cls_i)
                     objs.append(o)
                     model.new(v, cls_i)
                     continue
@@ -370,8 +375,8 @@ def run_case(case):
             if len(types) != len(shapes):
                 return [V("report_structure", "number of covergroup types (%s)" % kind, case,
                           "%s: %d types reported, %d shapes in memory" % (where, len(types), len(shapes)))], info
-            seen_names = set()
             for (shape, idxs), t in zip(shapes, types):
+                seen_names = set()       # (instance names are unique within their type)
                 cm = objs[idxs[0]].get_model()
                 names = lib_names(cm, has_cross)
                 th = model.summed(idxs)
